@@ -74,7 +74,7 @@ Section Laws.
         = repeat false i ++ repeat true (length (mk F b)) ++ repeat false (length s - i);
     ins_payload : forall s i b, clean s -> Forall seg_ok s -> adm b -> i <= length s ->
         payload F (insert_at i (mk F b) s) = ROk b;
-    clean_payload : forall s, clean s -> payload F s = RErr EJumbfNotFound;
+    clean_payload : forall s, clean s -> Forall seg_ok s -> payload F s = RErr EJumbfNotFound;
     ins_bound : forall l, ins F l <= length (strip F l);
     ins_stable : forall l b, Forall seg_ok (strip F l) -> adm b -> ins F (gwrite F l b) = ins F l;
     mk_nonempty : forall b, adm b -> mk F b <> [];
@@ -155,8 +155,8 @@ Section Laws.
   Proof. intros Hok Ha. apply c2pa_segs_insert; auto using (strip_clean L), (ins_bound L). Qed.
 
   (* C07: remove yields an asset without manifest *)
-  Theorem read_remove l : gread F (gremove F l) = RErr EJumbfNotFound.
-  Proof. apply (clean_payload L), (strip_clean L). Qed.
+  Theorem read_remove l : okl l -> gread F (gremove F l) = RErr EJumbfNotFound.
+  Proof. intro H. apply (clean_payload L); [apply (strip_clean L)| exact H]. Qed.
 
   Theorem c2pa_segs_remove l : c2pa_segs F (gremove F l) = [].
   Proof.
@@ -204,7 +204,7 @@ Section Laws.
     intros Hok Hpre. cbn zeta. rewrite grun_app. cbn [grun].
     destruct (grun_inv l pre Hok Hpre) as [H1 H2].
     repeat split.
-    - apply read_remove.
+    - apply read_remove. exact H1.
     - apply c2pa_segs_remove.
     - rewrite strip_remove. exact H2.
   Qed.
@@ -262,3 +262,88 @@ Section Laws.
     Qed.
   End Locality.
 End Laws.
+
+(* ------------------------------------------------------------------ stateless recognisers *)
+
+Lemma map_false_forall {A} (p : A -> bool) s :
+  map p s = repeat false (length s) <-> Forall (fun x => p x = false) s.
+Proof.
+  induction s as [|x t IH]; cbn.
+  - split; auto.
+  - split.
+    + intro H. injection H as H1 H2. constructor; [exact H1| apply IH; exact H2].
+    + intro H. inversion H; subst. f_equal; [assumption| apply IH; assumption].
+Qed.
+
+Lemma map_true_forall {A} (p : A -> bool) s :
+  Forall (fun x => p x = true) s -> map p s = repeat true (length s).
+Proof. induction 1; cbn; [reflexivity|]. f_equal; assumption. Qed.
+
+Lemma select_map_filter {A} (p : A -> bool) l : select false l (map p l) = filter (fun x => negb (p x)) l.
+Proof.
+  induction l as [|x t IH]; [reflexivity|]. cbn. destruct (p x); cbn; rewrite IH; reflexivity.
+Qed.
+
+Lemma filter_all {A} (q : A -> bool) l : Forall (fun x => q x = true) l -> filter q l = l.
+Proof. induction 1; cbn; [reflexivity|]. rewrite H. f_equal. assumption. Qed.
+
+Lemma filter_forall {A} (q : A -> bool) l : Forall (fun x => q x = true) (filter q l).
+Proof.
+  induction l as [|x t IH]; cbn; [constructor|]. destruct (q x) eqn:E; [constructor|]; assumption.
+Qed.
+
+Section Stateless.
+  Variable F : format.
+  Variable p : seg F -> bool.
+  Hypothesis Hm : forall l, marks F l = map p l.
+
+  Lemma sl_strip l : strip F l = filter (fun x => negb (p x)) l.
+  Proof. unfold strip. rewrite Hm. apply select_map_filter. Qed.
+
+  Lemma sl_clean_iff s : clean F s <-> Forall (fun x => p x = false) s.
+  Proof. unfold clean. rewrite Hm. apply map_false_forall. Qed.
+
+  Lemma sl_marks_len l : length (marks F l) = length l.
+  Proof. rewrite Hm. apply map_length. Qed.
+
+  Lemma sl_strip_clean l : clean F (strip F l).
+  Proof.
+    apply sl_clean_iff. rewrite sl_strip.
+    eapply Forall_impl; [|apply filter_forall]. cbn. intros a H. destruct (p a); [discriminate|reflexivity].
+  Qed.
+
+  Lemma sl_strip_of_clean s : clean F s -> strip F s = s.
+  Proof.
+    intro H. rewrite sl_strip. apply filter_all. apply sl_clean_iff in H.
+    eapply Forall_impl; [|exact H]. cbn. intros a Ha. rewrite Ha. reflexivity.
+  Qed.
+
+  Lemma sl_ins_marks s i x :
+    clean F s -> Forall (fun y => p y = true) x -> i <= length s ->
+    marks F (insert_at i x s) = repeat false i ++ repeat true (length x) ++ repeat false (length s - i).
+  Proof.
+    intros Hc Hx Hi. rewrite Hm. unfold insert_at. rewrite !map_app.
+    apply sl_clean_iff in Hc.
+    assert (H1 : Forall (fun y => p y = false) (firstn i s)).
+    { rewrite <- (firstn_skipn i s) in Hc. apply Forall_app in Hc. tauto. }
+    assert (H2 : Forall (fun y => p y = false) (skipn i s)).
+    { rewrite <- (firstn_skipn i s) in Hc. apply Forall_app in Hc. tauto. }
+    apply map_false_forall in H1. apply map_false_forall in H2.
+    rewrite H1, H2, (map_true_forall p x Hx), firstn_length, skipn_length.
+    replace (Nat.min i (length s)) with i by lia. reflexivity.
+  Qed.
+
+  Lemma sl_strip_insert s i x :
+    clean F s -> Forall (fun y => p y = true) x -> strip F (insert_at i x s) = s.
+  Proof.
+    intros Hc Hx. rewrite sl_strip. unfold insert_at. rewrite !filter_app.
+    apply sl_clean_iff in Hc.
+    assert (Hs : forall l, Forall (fun y => p y = false) l -> filter (fun y => negb (p y)) l = l).
+    { intros l Hl. apply filter_all. eapply Forall_impl; [|exact Hl]. cbn. intros a Ha. rewrite Ha. reflexivity. }
+    assert (Hxx : filter (fun y => negb (p y)) x = []).
+    { clear -Hx. induction Hx; cbn; [reflexivity|]. rewrite H. cbn. assumption. }
+    rewrite Hxx. cbn [app].
+    rewrite <- (firstn_skipn i s) in Hc. apply Forall_app in Hc. destruct Hc as [H1 H2].
+    rewrite (Hs _ H1), (Hs _ H2). apply firstn_skipn.
+  Qed.
+End Stateless.
